@@ -295,7 +295,10 @@ def eval_group(env, group, tier):
                  OR(OR(N_('b'), D_('=', 'L1')), D_('>', 'L2')), AND(D_('>=', 'L1'), OR(N_('c'), D_('<', 'L2'))),
                  AND(NOT(AND(N_('a'), D_('>=', 'L1'))), D_('<=', 'L2')), OR(AND(D_('>', 'L0'), D_('<', 'L1')), AND(D_('>', 'L2'), D_('<', 'L3'))),
                  OR(D_('=', 'L2'), OR(AND(N_('b'), D_('<=', 'L0')), AND(N_('c'), D_('>=', 'L3')))),
-                 AND(OR(N_('a'), D_('>', 'L3')), OR(N_('b'), OR(D_('<', 'L1'), D_('=', 'L3'))))]
+                 AND(OR(N_('a'), D_('>', 'L3')), OR(N_('b'), OR(D_('<', 'L1'), D_('=', 'L3')))),
+                 # the same literal under an interval operator and under a strict one (each comparison keeps its own reading of the literal)
+                 OR(D_('=', 'L0'), D_('===', 'L0')), AND(D_('>', 'L0'), D_('!==', 'L0')), OR(D_('<=', 'L0'), D_('===', 'L0')), AND(D_('!=', 'L0'), D_('!==', 'L0')),
+                 OR(D_('===', 'L0'), D_('=', 'L0')), AND(D_('!==', 'L0'), D_('<=', 'L0')), OR(AND(N_('a'), D_('=', 'L1')), D_('===', 'L1')), AND(D_('>=', 'L0'), OR(D_('!==', 'L0'), D_('>', 'L0')))]
         try:
             for txt, f in forms:
                 if group.get('only') is not None and txt != group['only']:
